@@ -1018,6 +1018,71 @@ pub fn apply_adv<A: Adapter>(
             }
             _ => false,
         },
+        // ---- IPA: a proof with one round more for a false value of the first polynomial of the first group ----
+        "proof_mut" if adv.comp == "forge_extra_round" => {
+            let mut frng = rng_for("forge_extra_round", s.bseed);
+            match st {
+                Stmt::Open { comms, labels, point, values, proof } => {
+                    let ps: Vec<&LabeledPolynomial<A::F, A::P>> = match labels.iter().map(|l| s.polys.get(l)).collect::<Option<Vec<_>>>() {
+                        Some(v) => v,
+                        None => return false,
+                    };
+                    let sts: Vec<&CState<A>> = match labels.iter().map(|l| s.states.get(l)).collect::<Option<Vec<_>>>() {
+                        Some(v) => v,
+                        None => return false,
+                    };
+                    let cs: Vec<&LabeledCommitment<Comm<A>>> = comms.iter().collect();
+                    if cs.len() != ps.len() || values.is_empty() {
+                        return false;
+                    }
+                    let mut sp = sp_v.fork_log();
+                    match A::forge_extra_round(&s.ck, &ps, &cs, point, &mut sp, &sts, &mut frng) {
+                        Some((p, v)) => {
+                            *proof = p;
+                            values[0] = v;
+                            true
+                        }
+                        None => false,
+                    }
+                }
+                Stmt::Batch { comms, qs, evals, proof } => {
+                    let mut groups: BTreeMap<(&String, &A::Pt), (&A::Pt, BTreeSet<&String>)> = BTreeMap::new();
+                    for (l, (pl, pt)) in qs.iter() {
+                        groups.entry((pl, pt)).or_insert((pt, BTreeSet::new())).1.insert(l);
+                    }
+                    let (pt, labels) = match groups.into_iter().next() {
+                        Some((_, (pt, ls))) => (pt.clone(), ls.into_iter().cloned().collect::<Vec<String>>()),
+                        None => return false,
+                    };
+                    if proof.is_empty() {
+                        return false;
+                    }
+                    let ids: Vec<i64> = labels.iter().map(|l| l[1..].parse().unwrap_or(0)).collect();
+                    let ps: Vec<&LabeledPolynomial<A::F, A::P>> = match ids.iter().map(|l| s.polys.get(l)).collect::<Option<Vec<_>>>() {
+                        Some(v) => v,
+                        None => return false,
+                    };
+                    let sts: Vec<&CState<A>> = match ids.iter().map(|l| s.states.get(l)).collect::<Option<Vec<_>>>() {
+                        Some(v) => v,
+                        None => return false,
+                    };
+                    let cs: Vec<&LabeledCommitment<Comm<A>>> = match labels.iter().map(|l| comms.iter().find(|c| c.label() == l)).collect::<Option<Vec<_>>>() {
+                        Some(v) => v,
+                        None => return false,
+                    };
+                    let mut sp = sp_v.fork_log();
+                    match A::forge_extra_round(&s.ck, &ps, &cs, &pt, &mut sp, &sts, &mut frng) {
+                        Some((p, v)) => {
+                            proof[0] = p;
+                            evals.insert((labels[0].clone(), pt), v);
+                            true
+                        }
+                        None => false,
+                    }
+                }
+                _ => false,
+            }
+        }
         // ---- crafted proof for one group of the statement AS SHOWN (IPA: final key solved for the succinct check) ----
         "proof_mut" if adv.comp == "forge_ipa_key" => {
             let g = adv.l as usize;
